@@ -1,0 +1,8 @@
+//! C21 hook: read the (private) source signature recorded in a `DefGateSequenceExpansion`.
+//! Add-only, `cfg(rigetti_quil_rs_verif)`.
+use crate::program::DefGateSequenceExpansion;
+
+/// `(name, "DEFGATE name(params) qubits AS SEQUENCE")` of the recorded source signature.
+pub fn expansion_source_signature(expansion: &DefGateSequenceExpansion<'_>) -> (String, String) {
+    expansion.verif_source_signature()
+}
